@@ -445,6 +445,10 @@ impl Monitors {
                 // multi-node placements: every chosen worker lives long enough for the time request
                 if let Some(def) = self.rqs.get(*rq as usize).and_then(|v| v.first()).cloned() {
                     for w in sets.iter().flatten() {
+                        // a worker that refused this request (hard reject: not enough time on ITS clock) blocks it for good
+                        if before.workers.iter().any(|wk| wk.id == *w && wk.blocked.contains(&(*rq, 0))) {
+                            fails.push(("c05.placement", "mn-blocked-request", format!("multi-node request {rq} placed on worker {w} which blocks it")));
+                        }
                         if let Some(t) = self.worker_term.get(w) {
                             if now_ms + def.min_time_ms > *t {
                                 fails.push(("c05.placement", "mn-not-enough-lifetime", format!("multi-node request {rq} (time request {} ms) placed on worker {w} with {} ms left", def.min_time_ms, t.saturating_sub(now_ms))));
